@@ -187,6 +187,7 @@ def c16_extra(work, res, uf, rng, quick):
             sid = "C16-seq-%s-%d" % (s, i)
             scen.append({"sid": sid, "prop": "C16", "vals": [a, b], "steps": steps, "tags": struct_tags(s, a, uf) + struct_tags(s, b, uf), "dkey": sid})
     # a value passed by pointer that the caller keeps, then by-value calls with OTHER values of the type: the first one is untouched
+    kept = []
     for s in sorted(uf.keys()):
         if uf[s].get("invalid"):
             continue
@@ -199,7 +200,9 @@ def c16_extra(work, res, uf, rng, quick):
                  {"op": "recheck", "obj": 0, "after": "byval-calls"},
                  {"op": "encode", "ty": s, "v": 0, "keep": False, "buf": {"mode": "size", "n": 0, "extra": 0}}]
         sid = "C16-kept-%s" % s
-        scen.append({"sid": sid, "prop": "C16", "vals": vs, "steps": steps, "tags": ["kept-argument"], "dkey": sid})
+        # (first in the batch: the by-value calls are then the first ones the type ever sees)
+        kept.append({"sid": sid, "prop": "C16", "vals": vs, "steps": steps, "tags": ["kept-argument"], "dkey": sid})
+    scen = kept + scen
     out = [Batch("sequences", uf, scen)]
     ddefs = cm.decoder_universe()
     dpath = vlib.write_defs(work, ddefs)
